@@ -336,7 +336,9 @@ class RC:
                 else:
                     ok = self.assignable(inner, b)
                 if not ok:
-                    self.report('R6-type-argument-bound', path + [term[1], pn], b, inner, node)
+                    # the declared bound mentions other parameters of the class: the bound to meet depends on the other arguments
+                    dep = '/dependent-bound' if set(rm.free_vars(pb)) & set(th) else ''
+                    self.report('R6-type-argument-bound' + dep, path + [term[1], pn], b, inner, node)
 
     # ---------------------------------------------------------------- declarations
     def class_decl(self, c, genv, path):
@@ -970,7 +972,11 @@ class RC:
                 else:
                     ok = self.assignable(a, b)
                 if not ok:
-                    self.report('R6-call-type-argument-bound', p2 + [tpar.name], b, a, e)
+                    # the declared bound mentions type parameters that this call (or its receiver) instantiates
+                    b0 = self.tt(tpar.bound)
+                    dep = '/dependent-bound' if any(th.get(v) not in (None,) and (th[v][0] != 'v' or th[v][1] != v)
+                                                    for v in rm.free_vars(b0)) else ''
+                    self.report('R6-call-type-argument-bound' + dep, p2 + [tpar.name], b, a, e)
         self.call_args(f, e.args, th, env, p2, e)
         rt_ = self.ret_of(f, e)
         return rm.subst(rt_, th)
